@@ -32,7 +32,8 @@ def gen_layout(rng, small=False):
             'mem'           : rng.choice([0, 100, 100]),
             'blocked_cores' : [],
             'blocked_gpus'  : [],
-            'agent_nodes'   : rng.choice([0, 0, 0, 1])}
+            'agent_nodes'   : rng.choice([0, 0, 0, 1, 1, 2]),
+            'service_nodes' : rng.choice([0, 0, 1])}
     if cpn > 1 and rng.random() < 0.3:
         lay['blocked_cores'] = sorted(rng.sample(range(cpn),
                                                  rng.randint(1, min(2, cpn - 1))))
